@@ -14,7 +14,8 @@ from ..common import Result, Violation
 from ..symx import CexFound, ConcreteEngine, explore
 
 PROP = "C11"
-VALUES = [None, {"k": {"v": "A"}, "t": 1}, {"k": {"v": "B"}, "t": 1}, {"k": {"v": "C"}, "t": 2}]
+# index 3 is the EMPTY dict: "no metadata" passed as an object (e.g. the caller's dict after .clear())
+VALUES = [None, {"k": {"v": "A"}, "t": 1}, {"k": {"v": "B"}, "t": 1}, {}, {"k": {"v": "C"}, "t": 2}]
 FUNCS = [
     "sedpack.io.dataset_filler:_DatasetFillerContext.write_example",
     "sedpack.io.dataset_filler:_DatasetFillerContext.close_shard",
@@ -62,7 +63,7 @@ def scenario(e, cfg):
                     e.assume(True)
                 arg = None
                 if v is not None:
-                    reuse = obj is not None and e.choice(f"reuse{i}", 2) == 1
+                    reuse = obj is not None and (len(v) > 0 or len(obj) > 0) and e.choice(f"reuse{i}", 2) == 1
                     if reuse:
                         _mutate_in_place(obj, v)
                     else:
@@ -95,7 +96,7 @@ def scenario(e, cfg):
                     rec = where[i].custom_metadata
                     e.prove(rec == v, f"example {i} was written with custom_metadata {v} but its shard records {rec}",
                             dict(kind="label-differs-from-value-at-write-time"))
-            for v in VALUES[1:nvals]:
+            for v in [x for x in VALUES[1:nvals] if x]:
                 want = {i for i, vv in mine if vv == v}
                 if not want:
                     continue
@@ -118,14 +119,16 @@ def cells(tier):
         for n in range(0, 5):
             out.append(dict(name="A/B + in-place reuse", nmax=4, values=3, splits=False, fixed={"n": n}))
         for n in range(0, 4):
+            out.append(dict(name="A/B/{} + in-place reuse", nmax=3, values=4, splits=False, fixed={"n": n}))
+        for n in range(0, 4):
             out.append(dict(name="two splits", nmax=3, values=3, splits=True, fixed={"n": n}))
     else:
         for n in range(0, 7):
-            out.append(dict(name="A/B + in-place reuse", nmax=6, values=3, splits=False, fixed={"n": n}))
+            out.append(dict(name="A/B + in-place reuse", nmax=6, values=4, splits=False, fixed={"n": n}))
         for n in range(0, 6):
-            out.append(dict(name="A/B/C + in-place reuse", nmax=5, values=4, splits=False, fixed={"n": n}))
+            out.append(dict(name="A/B/C + in-place reuse", nmax=5, values=5, splits=False, fixed={"n": n}))
         for n in range(0, 5):
-            out.append(dict(name="two splits", nmax=4, values=3, splits=True, fixed={"n": n}))
+            out.append(dict(name="two splits", nmax=4, values=4, splits=True, fixed={"n": n}))
     return out
 
 
@@ -144,7 +147,7 @@ def run(tier, seed):
         seen.add(sig)
         m = c["model"]
         viols.append(Violation(sig, f"{c['msg']} (model {m})", dict(model=m, cfg=dict(
-            nmax=64, values=4, splits=any(k.startswith("split") for k in m)))))
+            nmax=64, values=5, splits=any(k.startswith("split") for k in m)))))
     return Result(
         property_id=PROP, engine="symx",
         explanation="Bounded symbolic execution of the real filler with z3: E is an unbounded symbolic integer, every metadata "
